@@ -131,6 +131,7 @@ type world struct {
 	nblocks int
 	noHeads bool
 	viaFeed bool
+	deep    bool
 	cfgName string
 	history []string
 	mcmds   []string // the exact modelrun command lines of this history (replayable: printf ... | bin/modelrun_pool)
@@ -756,6 +757,7 @@ type poolCfg struct {
 	nolocals               bool
 	nsenders, nops         int
 	noHeads                bool                   // after a warm-up no head events: nothing recomputes the virtual nonces
+	deep                   bool                   // deep-account histories: few senders with 5-12 pending, prefix-mining heads, removal of the cheapest
 	viaFeed                bool                   // head changes arrive only as ChainHeadEvents on the real feed (TxPool.loop), not through VerifReset
 	st                     []acct                 // optional fixed initial state (directed histories)
 	gp                     int64                  // optional fixed price limit
@@ -1055,7 +1057,11 @@ func (w *world) runHistory(pc poolCfg) {
 			plan = scripted[opn]
 		} else {
 			w.noHeads = pc.noHeads && opn > pc.nops/4
+			w.deep = pc.deep
 			plan = w.planRandom(before)
+			if pc.deep {
+				plan = w.planDeep(before)
+			}
 		}
 		for _, a := range plan.touched {
 			extraRel[a] = true
@@ -1267,6 +1273,93 @@ func (w *world) runHistory(pc poolCfg) {
 		}
 		c.Sample(map[string]interface{}{"config": pc.name, "first_ops": w.history[:n]})
 	}
+}
+
+// mineExact builds a child of parent that includes exactly txs (state nonces / balances follow).
+func (w *world) mineExact(parent *blockInfo, txs []*mtx) *blockInfo {
+	st := copySt(parent.st)
+	for _, t := range txs {
+		st[t.from].nonce++
+		st[t.from].bal.Sub(st[t.from].bal, t.cost())
+	}
+	return w.newBlock(parent, parent.block.NumberU64()+1, txs, st, parent.gas)
+}
+
+// planDeep: deep-account histories.  Few senders build up 5-12 pending transactions with varied prices; heads mine a
+// strict prefix (1, 2 or all but one) of one sender, which pops the nonce heap; then the cheapest pending transaction
+// - wherever it sits: first, middle, last - is removed through SetGasPrice (or by eviction when the pool is full);
+// replacements in between.  The invariant oracle runs after every operation.
+func (w *world) planDeep(before view) sop {
+	r := w.r
+	var senders []int
+	for a := range w.addrs {
+		senders = append(senders, a)
+	}
+	a := senders[r.Intn(len(senders))]
+	pend := before.pending[a]
+	k := r.Intn(100)
+	switch {
+	case w.pool.GasPrice().Cmp(big.NewInt(1)) > 0 && k < 60: // let submissions in again
+		return sop{kind: "gasprice", class: "deep/gasprice-back", price: 1}
+	case len(pend) < 5 || (k < 22 && len(pend) < 12):
+		return sop{kind: "add", class: "deep/add-next", next: true, from: a, price: int64(50 + r.Intn(5000))}
+	case k < 50 && len(pend) >= 2: // mine a strict prefix: Forward pops the heap
+		m := []int{1, 2, len(pend) - 1}[r.Intn(3)]
+		if m > len(pend)-1 {
+			m = len(pend) - 1
+		}
+		if m < 1 {
+			m = 1
+		}
+		return sop{kind: "head", class: fmt.Sprintf("deep/head-mines-prefix-%s", map[bool]string{true: "all-but-one", false: fmt.Sprint(m)}[m == len(pend)-1 && m > 2]), nb: w.mineExact(w.chain.head, pend[:m])}
+	case k < 82: // remove the cheapest pending transaction of this sender (and whatever else is cheaper) by price
+		var cheapest *mtx
+		for _, t := range pend {
+			if cheapest == nil || t.price.Cmp(cheapest.price) < 0 {
+				cheapest = t
+			}
+		}
+		if cheapest == nil || before.locals[a] {
+			break
+		}
+		pos := "middle"
+		if cheapest.id == pend[0].id {
+			pos = "first"
+		} else if cheapest.id == pend[len(pend)-1].id {
+			pos = "last"
+		}
+		return sop{kind: "gasprice", class: "deep/remove-cheapest-" + pos, price: cheapest.price.Int64() + 1}
+	case k < 93 && len(pend) > 0: // replacement
+		o := pend[r.Intn(len(pend))]
+		p := o.price.Int64()*(100+int64(w.cfg.PriceBump)+int64(r.Intn(3))-1)/100 + 1
+		return sop{kind: "add", class: "deep/replace", t: w.mkTx(a, o.nonce, w.uniquePrice(p), o.gas, big.NewInt(int64(r.Intn(1000))), nil, false)}
+	}
+	return w.planRandom(before)
+}
+
+// directedHeap: the nonce index of txSortedMap is a heap; its last slot is not the highest nonce once Forward has
+// popped.  A has nonces 0..4 pending, nonce 3 is the cheapest; a head mines nonce 0 (heap.Pop); SetGasPrice removes
+// nonce 3: nonces 1,2 stay pending, nonce 4 must be demoted to the queue.  Variants remove after 2 pops and remove
+// the last / the first.
+func directedHeap(w *world) []sop {
+	prices := []int64{100, 110, 120, 50, 140, 60, 150, 160}
+	var txs []*mtx
+	for n, p := range prices {
+		txs = append(txs, w.mkTx(0, uint64(n), w.uniquePrice(p), 21000, big.NewInt(100), nil, false))
+	}
+	var ops []sop
+	for _, t := range txs {
+		ops = append(ops, sop{kind: "add", class: "directed/heap", t: t})
+	}
+	b1 := w.mineExact(w.chain.head, txs[:1])
+	b2 := w.mineExact(b1, txs[1:2])
+	ops = append(ops,
+		sop{kind: "head", class: "directed/heap-mine-1", nb: b1},
+		sop{kind: "gasprice", class: "directed/heap-remove-middle-after-pop", price: 51}, // removes nonce 3
+		sop{kind: "gasprice", class: "directed/heap", price: 1},
+		sop{kind: "head", class: "directed/heap-mine-1", nb: b2},
+		sop{kind: "add", class: "directed/heap-next", next: true, from: 0, price: 3000})
+	return ops
 }
 
 // planRandom draws the next operation of a generated history.
@@ -1860,7 +1953,9 @@ func main() {
 		k, _ := btcec.PrivKeyFromBytes(crypto.Keccak256([]byte(fmt.Sprintf("c15-sender-%d", i))))
 		w.keys = append(w.keys, k)
 	}
-	// directed histories first, on every seed
+	// data-structure level first: exhaustive small-scope sweep of txList against the model's sorted list
+	sweepTxList(c, m)
+	// directed histories, on every seed
 	w.runHistory(poolCfg{name: "default", as: 16, gs: 4096, aq: 64, gq: 1024, bump: 10, nsenders: 2, gp: 1,
 		st: []acct{{0, big.NewInt(100000000)}, {0, big.NewInt(100000000)}}, script: directedLeak})
 	w.runHistory(poolCfg{name: "default", as: 16, gs: 4096, aq: 64, gq: 1024, bump: 10, nsenders: 2, gp: 1,
@@ -1877,14 +1972,25 @@ func main() {
 		w.runHistory(poolCfg{name: "default", as: 16, gs: 4096, aq: 64, gq: 1024, bump: 10, nsenders: 2, gp: 1, viaFeed: feed,
 			st: []acct{{0, big.NewInt(1000000000)}, {0, big.NewInt(1000000000)}}, script: directedDeep})
 	}
+	w.runHistory(poolCfg{name: "default", as: 16, gs: 4096, aq: 64, gq: 1024, bump: 10, nsenders: 2, gp: 1,
+		st: []acct{{0, big.NewInt(1000000000)}, {0, big.NewInt(1000000000)}}, script: directedHeap})
 	for _, v := range []string{"equalize", "min"} {
 		w.runHistory(poolCfg{name: "slots", as: 1, gs: 4, aq: 3, gq: 6, bump: 10, nsenders: 3, gp: 1,
 			st: []acct{{0, big.NewInt(1000000000)}, {0, big.NewInt(1000000000)}, {0, big.NewInt(1000000000)}}, script: directedSlots(v)})
 	}
-	nh := c.Scale(80, 6000)
+	nh := c.Scale(84, 6000)
 	for i := 0; i < nh; i++ {
 		var pc poolCfg
-		switch i % 5 {
+		switch i % 6 {
+		case 5: // deep accounts: 5-12 pending per sender; every third one with a pool small enough to evict by price
+			pc = poolCfg{name: "deep", as: 16, gs: 64, aq: 16, gq: 64, bump: 10, nsenders: 1 + c.Rng.Intn(2), nops: 80 + c.Rng.Intn(120), deep: true}
+			if i%18 == 5 {
+				pc.name, pc.gs, pc.gq = "deep-full", 10, 3
+			}
+			pc.gp = 1
+			for k := 0; k < pc.nsenders; k++ { // balances that afford a dozen transactions at any generated price
+				pc.st = append(pc.st, acct{uint64(c.Rng.Intn(2)), big.NewInt(1000000000000)})
+			}
 		case 4: // slot pressure: any sender with two pending transactions is an offender
 			pc = poolCfg{name: "slots", as: 1, gs: 4 + uint64(c.Rng.Intn(3)), aq: 3, gq: 6, bump: 10, nsenders: 3 + c.Rng.Intn(2), nops: 60 + c.Rng.Intn(120)}
 		case 0, 1:
@@ -1895,7 +2001,7 @@ func main() {
 			pc = poolCfg{name: "default", as: 16, gs: 4096, aq: 64, gq: 1024, bump: 10, nsenders: 4 + c.Rng.Intn(5), nops: 60 + c.Rng.Intn(240)}
 		}
 		pc.nolocals = c.Rng.Chance(10)
-		pc.noHeads = pc.name != "default" && c.Rng.Chance(50)
+		pc.noHeads = pc.name != "default" && !pc.deep && c.Rng.Chance(50)
 		pc.viaFeed = !pc.noHeads && c.Rng.Chance(40)
 		if pc.viaFeed {
 			pc.name += "-feed"
